@@ -169,9 +169,11 @@ func Families(tier string) []Family {
 		f := Family{Name: "abbrev"}
 		toks := Ts("--v", "--ve", "--ver", "--verb", "--verbose", "--vers", "--version", "--veri", "--verify",
 			"-v", "-ve", "-ver", "--ver=x", "--ve=x", "--p", "cmd", "x")
-		for mode := 0; mode < 3; mode++ {
-			c := Cfg{Mode: mode}
-			c.Nodes = []NodeCfg{rootNode(0, false), cmdNode("cmd", 1, 0, false, true)}
+		for mode := 0; mode < 4; mode++ {
+			// the fourth definition: Normal mode with require-order (an ambiguous prefix is an error, not a stop point)
+			ro := mode == 3
+			c := Cfg{Mode: mode % 3}
+			c.Nodes = []NodeCfg{rootNode(0, ro), cmdNode("cmd", 1, 0, ro, true)}
 			// the same spelling can resolve differently before and after the command token:
 			// --p is profile at the root and ambiguous inside cmd; --verb is verbose at the root and the exact name verb inside cmd
 			c.Opts = []OptCfg{opt("bool", "v", 1), opt("string", "ver", 1), opt("incr", "verbose", 1, "version"), opt("bool", "profile", 1),
@@ -205,6 +207,22 @@ func Families(tier string) []Family {
 			o.SetCalled = true
 			c.Opts = []OptCfg{o, opt("bool", "other", 1)}
 			f.Defs = append(f.Defs, Def{Cfg: c, Tokens: Ts("--opt", "--alt=x", "--other", "x"), L: 2})
+		}
+		// history: what a Parse establishes does not depend on an earlier Parse on the same object (called by SetCalled,
+		// through the environment, or on the command line)
+		for variant := 0; variant < 2; variant++ {
+			c := Cfg{Mode: 0}
+			c.Nodes = []NodeCfg{rootNode(0, false), cmdNode("cmd", 1, 0, false, true)}
+			o := opt("string", "opt", 1, "o", "alt")
+			if variant == 0 {
+				o.SetCalled = true
+			} else {
+				o.Env = T("VERIF_ENV_AL")
+				c.Env = []EnvCfg{{Name: T("VERIF_ENV_AL"), Val: T("fromenv")}}
+			}
+			c.Opts = []OptCfg{o, opt("bool", "other", 1, "ot"), opt("bool", "co", 2)}
+			f.Defs = append(f.Defs, Def{Cfg: c, Tokens: Ts("--opt=x", "--alt=y", "--ot", "cmd", "--co", "x"), L: 2,
+				Pres: [][]Tok{{}, Ts("--other"), Ts("--alt=z", "cmd", "--co")}})
 		}
 		// Called / CalledAs / Value read through the top-level object after a wrapper or the help command was selected
 		for mode := 0; mode < 2; mode++ {
@@ -279,6 +297,11 @@ func Families(tier string) []Family {
 				c.Nodes[1].Unset = true
 				c.Opts = []OptCfg{opt("bool", "b", 1), opt("bool", "c", 2)}
 				f.Defs = append(f.Defs, Def{Cfg: c, Tokens: toks, L: lim(tier, 3, 4)})
+				if mode == 0 {
+					// the same with the help option / command declared: asking for help does not excuse an unknown option
+					ch := WithHelp(c, "help")
+					f.Defs = append(f.Defs, Def{Cfg: ch, Tokens: Ts("--b", "--u", "-u", "w", "sub", "--c", "a", "--help", "help"), L: lim(tier, 3, 4)})
+				}
 			}
 		}
 		fams = append(fams, f)
@@ -302,7 +325,9 @@ func Families(tier string) []Family {
 					c.Opts = []OptCfg{opt("string", "r", 1), opt("bool", "ao", 2), opt("bool", "so", 3), multi("sslice", "l", 1, 1, 3)}
 					c = WithHelp(c, "help")
 				case 1: // root without fn; a without fn -> s fn; w wrapper; no help
-					c.Nodes = []NodeCfg{rootNode(2, false), cmdNode("a", 1, 2, false, false), cmdNode("s", 2, 2, false, true), cmdNode("w", 1, 2, false, true)}
+					// ... and a sub-command b under the wrapper, which must see the wrapper's own option so (but not the root's r)
+					c.Nodes = []NodeCfg{rootNode(2, false), cmdNode("a", 1, 2, false, false), cmdNode("s", 2, 2, false, true), cmdNode("w", 1, 2, false, true),
+						cmdNode("b", 4, 2, false, true)}
 					c.Nodes[3].Unset = true
 					c.Opts = []OptCfg{opt("string", "r", 1), opt("bool", "ao", 2), opt("bool", "so", 4)}
 				case 2: // require-order root, commands after the stop point must not be selected; b without fn but with two children
@@ -330,7 +355,7 @@ func Families(tier string) []Family {
 			ar.Req = true
 			switch variant {
 			case 1:
-				rq.HasMsg, rq.ReqMsg = true, T("rq is needed")
+				rq.HasMsg, rq.ReqMsg = true, T("rq is needed: 100% (%s, %d)")
 				ar.HasMsg, ar.ReqMsg = true, T("give --ar")
 			case 2:
 				rq.Env = T("VERIF_ENV_RQ")
@@ -344,7 +369,12 @@ func Families(tier string) []Family {
 			}
 			c.Opts = append(c.Opts, rq, ar)
 			c = WithHelp(c, "help", "h")
-			f.Defs = append(f.Defs, Def{Cfg: c, Tokens: toks, L: lim(tier, 3, 4), Disp: true})
+			d := Def{Cfg: c, Tokens: toks, L: lim(tier, 3, 4), Disp: true}
+			if variant == 2 {
+				// history: the environment satisfies the required option however often Parse runs
+				d.Pres = [][]Tok{{}, Ts("x"), Ts("a", "--ar")}
+			}
+			f.Defs = append(f.Defs, d)
 		}
 		fams = append(fams, f)
 	}
@@ -427,6 +457,8 @@ func Families(tier string) []Family {
 					c.Nodes[1].DynFn = true
 					c.Nodes[1].DynOut = Ts("dyn1", "zz")
 					c.Opts[0].Kind = "incr"
+					c.Opts = append(c.Opts, opt("bool", "Flag", 1), opt("bool", "FLEG", 1))
+					c.Nodes = append(c.Nodes, cmdNode("Log", 1, 0, true, true), cmdNode("SHOW", 1, 0, true, true))
 					c.Prog = T("log") // the program is invoked under the name of one of its commands
 				}
 				c = WithHelp(c, "help", "?")
